@@ -434,6 +434,8 @@ func (b *bb) scenarioJoin() {
 		b.note("join", fmt.Sprintf("trickle %s %s nocopy=%v timeout=%v", kind, ver, nocopy, tmo), before)
 	}
 
+	b.backpressure()
+
 	// (3) v1: Stop while the consumer does not read / holds a slice
 	for attempt := 0; attempt < 4; attempt++ {
 		nocopy := nocopy || r.Intn(2) == 0
@@ -540,6 +542,126 @@ func (b *bb) scenarioJoin() {
 	}
 }
 
+// backpressure: copy mode, a consumer that is NOT ready.  The output channel has capacity c, so
+// of c+1 full slices produced back to back the last one blocks in the discipline's write until the
+// consumer wakes up (after d = Timeout/2) and receives slice 0.  One more element follows at once
+// and then silence: it forms a short, non-final slice.  C09: it is delivered no earlier than
+// Timeout after the previous slice was delivered; the previous slice (index c) cannot have been
+// written to the output before the consumer received slice 0 (the channel was full until then),
+// so  recv(short) >= recv(slice 0) + Timeout  is implied by the property whatever "delivered"
+// means between "written" and "received".  A timer that is stamped before the blocking write
+// (instead of after it) flushes the short slice about d too early.
+func (b *bb) backpressure() {
+	before := b.fails()
+	mode := []string{"join-v2", "unite-forward", "unite-accumulate", "join-v1"}[b.cycle("backpressure", 4)]
+	const size = 3
+	tmo := 60 * time.Millisecond
+	if mode == "join-v1" {
+		tmo = 80 * time.Millisecond
+	}
+	const inacc = 25
+	var output <-chan []int
+	var write func(xs []int) // one full slice / the short tail
+	var closeIn func()
+	switch mode {
+	case "join-v2":
+		in := make(chan int)
+		d, err := j2.New(j2.Opts[int]{Input: in, JoinSize: size, Timeout: tmo, TimeoutInaccuracy: inacc})
+		if err != nil {
+			b.fail("C03 join.New: %v", err)
+			return
+		}
+		output = d.Output()
+		write = func(xs []int) {
+			for _, x := range xs {
+				in <- x
+			}
+		}
+		closeIn = func() { close(in) }
+	case "join-v1":
+		in := make(chan int)
+		d, err := j1.New(j1.Opts[int]{Ctx: context.Background(), Input: in, JoinSize: size, Timeout: tmo, TimeoutInaccuracy: inacc})
+		if err != nil {
+			b.fail("C03 v1 join.New: %v", err)
+			return
+		}
+		output = d.Output()
+		write = func(xs []int) {
+			for _, x := range xs {
+				in <- x
+			}
+		}
+		closeIn = func() { close(in) }
+	default:
+		in := make(chan []int)
+		d, err := unite.New(unite.Opts[int]{Input: in, JoinSize: size, Timeout: tmo, TimeoutInaccuracy: inacc})
+		if err != nil {
+			b.fail("C03 unite.New: %v", err)
+			return
+		}
+		output = d.Output()
+		fwd := mode == "unite-forward"
+		write = func(xs []int) {
+			if fwd || len(xs) < 2 {
+				in <- xs // len == JoinSize: the oversize path (forward)
+				return
+			}
+			in <- xs[:len(xs)-1]
+			in <- xs[len(xs)-1:]
+		}
+		closeIn = func() { close(in) }
+	}
+	c := cap(output)
+	full := c + 1
+	d := tmo / 2
+	prodDone := make(chan struct{})
+	go func() {
+		defer close(prodDone)
+		next := 1
+		for i := 0; i < full; i++ {
+			write([]int{next, next + 1, next + 2})
+			next += size
+		}
+		write([]int{next}) // the short slice
+		time.Sleep(tmo + tmo/4 + 200*time.Millisecond)
+		write([]int{next + 1}) // the final slice
+		closeIn()
+	}()
+	time.Sleep(d) // the consumer is not ready
+	var outs []outRec
+	var asked []time.Time // the reading taken BEFORE the receive that returned outs[i]: not later than the receive
+	deadline := time.After(20 * time.Second)
+loop:
+	for {
+		ask := time.Now()
+		select {
+		case sl, open := <-output:
+			if !open {
+				break loop
+			}
+			asked = append(asked, ask)
+			outs = append(outs, outRec{append([]int(nil), sl...), time.Now()})
+		case <-deadline:
+			b.fail("C03 backpressure %s: the output was not closed within 20s after the input was closed", mode)
+			break loop
+		}
+	}
+	<-prodDone
+	for j, o := range outs {
+		if len(o.data) >= size || j == len(outs)-1 || j-1-c < 0 {
+			continue
+		}
+		// (measured from a reading taken before slice j-1-c was received to a reading taken
+		// after the short slice was received: scheduling delays of this goroutine only widen it)
+		if got := o.at.Sub(asked[j-1-c]); got < tmo-2*time.Millisecond {
+			b.fail("C09 backpressure %s: the short non-final slice %v was delivered %v after slice %d had been received; the previous slice %v could not be written to the full output (capacity %d) before that moment, Timeout %v: the timeout is counted from before the previous slice was delivered [consumer not ready for %v, then reads everything]",
+				mode, o.data, got, j-1-c, outs[j-1].data, c, tmo, d)
+		}
+	}
+	b.leakProbe("termination of " + mode + " under backpressure")
+	b.note("join", "backpressure "+mode, before)
+}
+
 func (b *bb) scenarioLimit() {
 	before := b.fails()
 	r := b.r
@@ -593,6 +715,13 @@ func (b *bb) scenarioLimit() {
 		b.fail("C12 limit.New: %v", err)
 		return
 	}
+	// stall-burst: the silence is long (also in absolute terms), so that a discipline which lets a
+	// slow portion lengthen a later pause falls clearly behind the rate
+	stall := 8 * interval
+	if stall < 300*time.Millisecond {
+		stall = 300 * time.Millisecond
+	}
+	var stallEnd time.Time
 	go func() {
 		for i := 0; i < n; i++ {
 			if (pattern == "prefilled" || pattern == "small") && inCap > n {
@@ -602,7 +731,8 @@ func (b *bb) scenarioLimit() {
 				time.Sleep(interval / 4)
 			}
 			if pattern == "stall-burst" && i == int(q) {
-				time.Sleep(8 * interval)
+				time.Sleep(stall)
+				stallEnd = time.Now()
 			}
 			in <- i
 		}
@@ -675,6 +805,16 @@ loop:
 		// says nothing checkable; those configurations serve the lower bound of C04 only)
 		if bound := time.Duration(batches+1)*interval + slack + time.Duration(batches)*lag; interval >= 2*time.Millisecond && end.Sub(t0) > bound {
 			b.fail("C12 limit: %d prefilled elements took %v, more than (ceil(N/Q)+1) intervals + slack = %v (Q=%d, Interval=%v)", n, end.Sub(t0), bound, q, interval)
+		}
+	case "stall-burst":
+		// from the end of the silence on, everything is available at once: the portion that was
+		// waiting completes, and the remaining elements take about one Interval per portion
+		if !stallEnd.IsZero() {
+			batches := (uint64(n)-q+q-1)/q + 1
+			if bound := time.Duration(batches+1)*interval + slack + time.Duration(batches)*lag; end.Sub(stallEnd) > bound {
+				b.fail("C12 limit: after a silence of %v in the middle of the input, the remaining %d elements (available at once) took %v, more than (ceil(N/Q)+2) intervals + slack = %v (Q=%d, Interval=%v): a portion that took longer than Interval must not lengthen a later pause",
+					stall, n-int(q), end.Sub(stallEnd), bound, q, interval)
+			}
 		}
 	case "small":
 		if bound := interval/2 + slack; end.Sub(t0) > bound {
